@@ -220,6 +220,7 @@ def run(chk):
     chk.floor("R-REL", 40)
     chk.floor("R-ENDS", 28)
     chk.floor("R-MEASURE", 17)
+    deprecated_stats(chk)
     chk.rule("R-LIBNS", "every NumPy/SciPy name referenced by the anchored duration functions (the deprecated AccSignal.generate_duration_stats "
                         "included) exists in the installed library (resolved from the installed stubs/sources, nothing imported)")
     libns_for(chk, "R-LIBNS", ["eqsig.single.AccSignal.generate_duration_stats", "eqsig.im.calc_sig_dur_vals", "eqsig.im.calc_sig_dur",
@@ -301,3 +302,55 @@ def check_value(chk, c, v, se, measure_tags, atom, not_tags, forwarder=False):
             expect(chk, "R-ENDS", c, v, sign="nonneg", tags_has=["sel:first", "sel:last", "span:hi-lo"], kind=K_SCALAR)      # the duration is end - start
         expect(chk, "R-REL", c, v, deg={atom: 0, DT: 1}, parity={atom: "even"}, atoms=(atom, DT))
         expect(chk, "R-MEASURE", c, v, tags_has=list(measure_tags), tags_not=list(not_tags))
+
+
+def deprecated_stats(chk):
+    """The deprecated object-level statistics (AccSignal.generate_duration_stats) are a second implementation of the bracketed durations
+    (thresholds 0.01 / 0.05 / 0.10 g stored as t_b01 / t_b05 / t_b10) and forward the significant duration to calc_sig_dur_vals: the same
+    clauses are read off it -- the samples that count are those whose |a| EXCEEDS the threshold (strict, |a| on the larger side), the
+    duration is (last - first) of one selection, times dt."""
+    P = chk.P
+    q = ACC + ".generate_duration_stats"
+    if q not in P.functions:
+        chk.ob("R-REL", "eqsig/single.py:AccSignal.generate_duration_stats", "the deprecated statistics method exists", False, derived="not found",
+               inconclusive=True)
+        return
+    r = analyse(chk, q, None, self_cls=ACC)
+    c = "eqsig/single.py:AccSignal.generate_duration_stats"
+    unmodelled_in(r, chk, "R-REL", c)
+    def _series(e):      # the record-derived side is a series of samples (not a count of selected samples, not a position)
+        m_ = e.left if "attr:_values" in e.left.tags else e.right
+        return m_.kind == K_ARRAY and m_.dtype != "int" and "where-index" not in m_.tags and "len-of" not in m_.tags
+    cm = [e for e in r.events("compare", q) if (("attr:_values" in e.left.tags) != ("attr:_values" in e.right.tags)) and
+          (e.left.has_const() or e.right.has_const()) and _series(e)]
+    consts = []
+    for e in list({id(e.node): e for e in cm}.values()):
+        m, b = (e.left, e.right) if "attr:_values" in e.left.tags else (e.right, e.left)
+        op = e.op if m is e.left else {"Gt": "Lt", "Lt": "Gt", "GtE": "LtE", "LtE": "GtE"}.get(e.op, e.op)
+        consts.append(b.const)
+        chk.ob("R-STRICT", "%s{%s}" % (c, " ".join(ast.unparse(e.node).split())), "a sample counts when |a| EXCEEDS the threshold: |a| > threshold (strict)",
+               op == "Gt", derived="|a| %s threshold" % op, loc=e.loc, stmt=e.stmt)
+        expect(chk, "R-REL", "%s{%s}.operand" % (c, " ".join(ast.unparse(e.node).split())), m, deg={R: 1}, parity={R: "even"}, sign="nonneg",
+               tags_has=["abs"], loc=e.loc)
+    chk.ob("R-REL", c + "{thresholds}", "the three bracketed durations use 0.01 g, 0.05 g and 0.10 g", sorted(consts) == [0.01, 0.05, 0.1],
+           derived="thresholds %s" % sorted(consts), loc=r.fi.loc(), inconclusive=len(consts) != 3)
+    for attr in ("t_b01", "t_b05", "t_b10"):
+        ws = [e for e in r.I.events if e.kind == "attr-write" and e.attr == attr and e.value is not None and not e.value.has_const()]
+        if not ws:
+            chk.ob("R-ENDS", "%s.%s" % (c, attr), "the bracketed duration is stored", False, derived="no store located", inconclusive=True, loc=r.fi.loc())
+            continue
+        v = ws[0].value
+        if "span:hi-lo" not in v.tags:
+            rev_ = v.sign in (S_NONPOS, S_NEG) or "span:hi+lo" in v.tags
+            chk.ob("R-ENDS", "%s.%s[extent]" % (c, attr), "the duration is (last - first) of one selection of times", False,
+                   derived=("the SUM of the two ends reaches the result" if "span:hi+lo" in v.tags else "sign %s, no (last - first) extent" % v.sign),
+                   loc=ws[0].loc, stmt=ws[0].stmt, inconclusive=not rev_)
+        else:
+            expect(chk, "R-ENDS", "%s.%s" % (c, attr), v, sign="nonneg", kind=K_SCALAR, loc=ws[0].loc)
+        # (a fixed threshold: the duration is a time -- degree 1 in dt -- selected by the record, not homogeneous in it)
+        expect(chk, "R-REL", "%s.%s" % (c, attr), v, deg={DT: 1}, tags_has=["attr:_values", "attr:_dt"], loc=ws[0].loc)
+    calls = [e for e in r.events("call", q) if e.callee == "eqsig.im.calc_sig_dur_vals"]
+    chk.ob("R-MEASURE", c + "{significant duration}", "the significant duration is forwarded to calc_sig_dur_vals(values, dt, se=True)",
+           len(calls) == 1 and "attr:_values" in calls[0].bound["motion"].tags and "attr:_dt" in calls[0].bound["dt"].tags and
+           calls[0].bound["se"].has_const() and calls[0].bound["se"].const is True,
+           derived="%d call(s)" % len(calls), loc=calls[0].loc if calls else r.fi.loc(), inconclusive=not calls)
